@@ -74,6 +74,20 @@ class Judge:
             self.hist.append(("alloc", ev["size"], ev["align"], ev["off"], ev["cap0"], ev["cap1"]))
             w.count("allocs")
             if ev["exc"] is not None:
+                if ev["exc"] == "MemoryError" and ev["size"] >= (1 << 40):
+                    # a request no machine can serve may be refused; the buffer must be exactly as before
+                    w.count("impossible_requests_refused")
+                    if ev["cap1"] != ev["cap0"]:
+                        self.viol("refused-request-changed-capacity", f"{ev['cap0']} -> {ev['cap1']}")
+                    elif len(bufmon.raw_bytes(buf)) != buf.capacity:
+                        self.viol("storage-size-differs-from-capacity", f"len(storage)={len(bufmon.raw_bytes(buf))} capacity={buf.capacity} after a refused request")
+                    elif hasattr(buf, "chunks"):
+                        ch = [[c.start, c.end] for c in buf.chunks if c.end > c.start]
+                        if ch != self.sh.free and self.do12:
+                            self.viol("refused-request-changed-free-list", f"chunks={ch} spec={self.sh.free}")
+                        elif any(c.end > buf.capacity for c in buf.chunks):
+                            self.viol("free-space-beyond-capacity-after-refused-request", f"chunks={ch} capacity={buf.capacity}")
+                    return
                 if self.do12:
                     self.viol(f"allocate-raises:{ev['exc']}", f"allocate({ev['size']}) raised {ev['exc']}")
                 return
@@ -218,6 +232,16 @@ def random_history(w, rng, do04, do12):
     try:
         for _ in range(nops):
             r = rng.random()
+            if r < 0.015:
+                # a request that cannot possibly be served; the caller catches the error and carries on
+                try:
+                    buf.allocate(1 << rng.choice([58, 60]), align=rng.random() < 0.5)
+                except (MemoryError, ValueError, OverflowError):
+                    pass
+                opk.append("X")
+                if j.bad:
+                    break
+                continue
             if r < 0.55 or not j.regions:
                 size = pick_size(rng, buf, j.sh if do12 else Shadow(0))
                 try:
